@@ -136,6 +136,13 @@ class ModelInterp(MiniEval):
     def new(self, cls_q: str, **attrs) -> Stub:
         return Stub(cls_q, **attrs)
 
+    def as_callable(self, v: Any):
+        if isinstance(v, Hook):
+            return v.fn
+        if isinstance(v, (FuncRef, Bound, ClassRef)):
+            return lambda *a_, **k_: self.apply(v, list(a_), k_)
+        return super().as_callable(v)
+
     # ------------------------------------------------------------ attributes
     def get_attr(self, base: Any, attr: str) -> Any:
         if isinstance(base, Stub):
@@ -167,6 +174,8 @@ class ModelInterp(MiniEval):
                 return getattr(base, attr)
         if isinstance(base, Hook) and attr in base.attrs:
             return base.attrs[attr]
+        if type(base) in (dict, list, tuple) and attr == '__getitem__':
+            return Hook(base.__getitem__)  # used as key= / mapping function
         if isinstance(base, tuple) and attr in getattr(base, '_fields', ()):
             return getattr(base, attr)  # checker-made namedtuple stand-in
         raise Unsupported(f'attribute .{attr} on {type(base).__name__}')
